@@ -1763,7 +1763,7 @@ func closeUnclosedBlocks(exp Exporter, macro string) {
 	}
 	inScope := false
 	for _, s := range scopes {
-		if s.macro == macro {
+		if s.macro == macro || macro == "It" && s.macro == "Bl" {
 			inScope = true
 			break
 		}
